@@ -29,7 +29,7 @@ REAL_COMPONENTS = ['pysmi.compiler.MibCompiler.compile', 'parser', 'SymtableCode
 STUB_COMPONENTS = ['searcher answer tables (layer a)', 'web server behind HttpReader (simulated responder at urlopen, no socket; layer c)', 'process time zone (chosen per world: UTC, CET/CEST, EST/EDT, IST)', 'sources/borrowers/writer (layer a)', 'clock (virtual; file mtimes stamped from it)', 'stat/open/read errno and vanish faults']
 RULE = ('(a) seeded compile() worlds with 1-3 searchers answering fresh/stale/error per module, file-like and stub-like, rebuild/noDeps subsets; '
         '(b) product {AnyFileSearcher(.json), PyFileSearcher, PyPackageSearcher} x destination population {none, file at t-1/t/t+1, directory} x legacy .pyc {none, header time t-1/t/t+1, bad magic} '
-        'x distractors x rebuild, each also with every (interposed call, errno/vanish) fault; (c) histories of compile/touch/advance over directory, ZIP (time-zone worlds) and HTTP sources (Last-Modified present or absent, time-zone worlds); '
+        'x distractors x rebuild, each also with every (interposed call, errno/vanish) fault; (c) histories of compile/touch/advance - some compile calls killed at an interposed call (the next call is a new process that has only the durable state) - over directory, ZIP (time-zone worlds) and HTTP sources (Last-Modified present or absent, time-zone worlds); '
         'distinct = distinct (layer, searcher, population, relation, rebuild, fault, answer) or status signature; non-trivial = all of layer b/c, layer a with >=1 searcher')
 ASSUMPTIONS = ['mtimes have one-second resolution (pysmi reads st[8]); the clock is virtual and integer',
                'PyPackageSearcher is exercised on its package-directory branch; the egg/zipimport branch depends on a private zipimporter attribute and is not simulated']
@@ -415,6 +415,12 @@ def gen_c(rng, tier):
             if rng.random() < 0.2:
                 opts['noDeps'] = True
             ops.append({'op': 'compile', 'names': [rng.choice(names)], 'options': opts})
+            first = not any(o_['op'] == 'compile' for o_ in ops[:-1])
+            if rng.random() < (0.3 if first else 0.1):
+                # the process is killed inside this call (no clean-up runs); whatever runs afterwards is a new process
+                ops[-1]['kill'] = {'site': rng.choice(['mkstemp', 'os.write', 'os.close', 'os.rename', 'os.stat']), 'nth': rng.choice([0, 0, 1, 2, 3, 5, 8])}
+                if first:
+                    ops[-1]['options'].pop('noDeps', None)
         elif r < 0.75:
             ops.append({'op': 'touch', 'name': rng.choice(names + list(basemibs.BASE_NAMES))})
         else:
@@ -559,18 +565,39 @@ def run_c(scn):
                         persistent = comp
                     comp = persistent
                     before = core.snapshot(dst)
+                    if op.get('kill'):
+                        w.faults = [{'op': i, 'site': op['kill']['site'], 'nth': op['kill']['nth'], 'action': 'kill', 'arg': None}]
                     if htz and scn.get('no_last_modified'):
                         for n_ in src_m:
                             src_m[n_] = float(int(w.now)) if w.now == int(w.now) else w.now    # no header: the reader takes the time of the fetch
                     try:
                         with core.partitioned_network():
                             R = comp.compile(*op['names'], **op['options'])
+                    except core.SimKill:
+                        # crash: only what had been renamed into place survives as a module file; every such file must be
+                        # complete, and the next process must reach the right decisions from that durable state alone
+                        persistent = None
+                        w.faults = []
+                        w.probe('c-process-killed-inside-compile')
+                        after = core.snapshot(dst)
+                        for fn_, rec_ in sorted(after.items()):
+                            if fn_.endswith('.json') and before.get(fn_) != rec_:
+                                body = core.read_bytes(os.path.join(dst, fn_)) or b''
+                                try:
+                                    json.loads(body.decode())
+                                except ValueError:
+                                    V('C10.7-history', 'operation %d: after a kill inside compile() the destination holds an incomplete %s (%d bytes)' % (i, fn_, len(body)),
+                                      what='partial-after-kill')
+                                dst_m[fn_[:-5]] = w.now
+                        w.end_op('killed')
+                        continue
                     except BaseException as e:  # noqa
                         if isinstance(e, (core.StepBudget, core.WorldTimeout)):
                             raise
                         V('C10.7-history', 'compile() raised %s in a healthy world' % type(e).__name__, what='raised')
                         w.end_op('raise')
                         break
+                    w.faults = []
                     after = core.snapshot(dst)
                     rebuild = bool(op['options'].get('rebuild'))
                     noDeps = bool(op['options'].get('noDeps'))
@@ -611,8 +638,8 @@ def run_c(scn):
                 w.end_op()
         fp, fph = w.fingerprints(extra=sorted(core.snapshot(dst, with_mtime=True, scrub=root).items()))
         return {'violations': viol, 'sig': json.dumps(['c', [o['op'] for o in scn['ops']], sorted(set(sig)), scn.get('src_skew'), bool(scn.get('persistent'))]),
-                'nontrivial': True, 'events': len(w.log), 'sim_s': abs(w.simulated_seconds()) + sum(abs(o.get('dt', 0)) for o in scn['ops']), 'fired': {},
-                'probes': {'layer-c': 1, 'c-equal-mtime-case': 1 if any(s[1] == 'eq' for s in sig) else 0},
+                'nontrivial': True, 'events': len(w.log), 'sim_s': abs(w.simulated_seconds()) + sum(abs(o.get('dt', 0)) for o in scn['ops']), 'fired': dict(w.fired),
+                'probes': dict(w.probes, **{'layer-c': 1, 'c-equal-mtime-case': 1 if any(s[1] == 'eq' for s in sig) else 0}),
                 'fp': fp, 'fph': fph, 'comps': {'compile(real reader/writer/searcher)': sum(1 for o in scn['ops'] if o['op'] == 'compile')}}
     finally:
         if scn.get('zip_tz') or scn.get('http_tz'):
